@@ -427,7 +427,7 @@ func c06Hostile(c *core.Case) {
 	variants := map[string][]byte{
 		"gap":             good(pos.TXID+2, pos.TXID+2, pos.Chk),
 		"overlap":         good(pos.TXID, pos.TXID, pos.Chk),
-		"far-behind":      good(2, 2, pos.Chk),
+		"far-behind":      good(1, 1, pos.Chk),
 		"wrong-prechksum": good(pos.TXID+1, pos.TXID+1, pos.Chk^0x5555),
 		"corrupt-body":    corrupt,
 		"truncated":       good(pos.TXID+1, pos.TXID+1, pos.Chk)[:130],
